@@ -120,6 +120,19 @@ def run(ctx):
         pv = val("port.cmd.valid")
         if pv is None or "cmd_fifo.source.valid" not in litset(conj(pv)) or not any("wdata_fifo.level" in k for k in litset(conj(pv))):
             ob2.refute("cmd-needs-data", "burst-write command valid is %s, expected cmd_fifo.source.valid & (wdata_fifo.level > 0)" % (key(pv) if pv is not None else None), None)
+        # burst not abandoned: the burst-write state is left only when every beat of the burst was received
+        wout = [l for l in wl if l.kind == "next"]
+        bc = key(dc)
+        for l in wout:
+            g = v.guard_keys(l, False)
+            zero = {"~" + bc, key(Op("==", (dc, Const(0))))}
+            ob2.instance("burst-write exit", sorted(g))
+            if not (g & zero):
+                ob2.refute("burst-write-exit", "the burst-write state is left under %s, which does not require the beat counter %s to be 0: during an idle gap of "
+                           "the master (write deasserted between beats, legal in Avalon-MM) the FSM abandons the burst once the FIFOs drained and the "
+                           "remaining beats are decoded as new accesses" % (sorted(g), bc), l.loc)
+        if not wout:
+            ob2.unknown("burst-write state has no exit")
         # ---- C11.3 ----
         lat = [l for l in v.leaves if l.domain.startswith("sync") and l.fsm is None and l.kind == "assign" and l.inst == ""]
         lm = {key(l.target): (key(l.value), sorted(v.guard_keys(l, False))) for l in lat}
